@@ -228,56 +228,68 @@ pub mod atomic {
                 pub fn load(&self, o: Ordering) -> $prim {
                     self.reg();
                     sched::point(concat!(stringify!($name), ".load"));
-                    self.inner.load(o)
+                    let v = self.inner.load(o);
+                    sched::note_read(&self.inner as *const $std as usize, v as u64);
+                    v
                 }
                 pub fn store(&self, v: $prim, o: Ordering) {
                     self.reg();
                     sched::point(concat!(stringify!($name), ".store"));
+                    sched::note_write(&self.inner as *const $std as usize);
                     self.inner.store(v, o)
                 }
                 pub fn swap(&self, v: $prim, o: Ordering) -> $prim {
                     self.reg();
                     sched::point(concat!(stringify!($name), ".swap"));
+                    sched::note_write(&self.inner as *const $std as usize);
                     self.inner.swap(v, o)
                 }
                 pub fn fetch_add(&self, v: $prim, o: Ordering) -> $prim {
                     self.reg();
                     sched::point(concat!(stringify!($name), ".fetch_add"));
+                    sched::note_write(&self.inner as *const $std as usize);
                     self.inner.fetch_add(v, o)
                 }
                 pub fn fetch_sub(&self, v: $prim, o: Ordering) -> $prim {
                     self.reg();
                     sched::point(concat!(stringify!($name), ".fetch_sub"));
+                    sched::note_write(&self.inner as *const $std as usize);
                     self.inner.fetch_sub(v, o)
                 }
                 pub fn fetch_max(&self, v: $prim, o: Ordering) -> $prim {
                     self.reg();
                     sched::point(concat!(stringify!($name), ".fetch_max"));
+                    sched::note_write(&self.inner as *const $std as usize);
                     self.inner.fetch_max(v, o)
                 }
                 pub fn fetch_min(&self, v: $prim, o: Ordering) -> $prim {
                     self.reg();
                     sched::point(concat!(stringify!($name), ".fetch_min"));
+                    sched::note_write(&self.inner as *const $std as usize);
                     self.inner.fetch_min(v, o)
                 }
                 pub fn fetch_and(&self, v: $prim, o: Ordering) -> $prim {
                     self.reg();
                     sched::point(concat!(stringify!($name), ".fetch_and"));
+                    sched::note_write(&self.inner as *const $std as usize);
                     self.inner.fetch_and(v, o)
                 }
                 pub fn fetch_or(&self, v: $prim, o: Ordering) -> $prim {
                     self.reg();
                     sched::point(concat!(stringify!($name), ".fetch_or"));
+                    sched::note_write(&self.inner as *const $std as usize);
                     self.inner.fetch_or(v, o)
                 }
                 pub fn fetch_xor(&self, v: $prim, o: Ordering) -> $prim {
                     self.reg();
                     sched::point(concat!(stringify!($name), ".fetch_xor"));
+                    sched::note_write(&self.inner as *const $std as usize);
                     self.inner.fetch_xor(v, o)
                 }
                 pub fn fetch_nand(&self, v: $prim, o: Ordering) -> $prim {
                     self.reg();
                     sched::point(concat!(stringify!($name), ".fetch_nand"));
+                    sched::note_write(&self.inner as *const $std as usize);
                     self.inner.fetch_nand(v, o)
                 }
                 pub fn as_ptr(&self) -> *mut $prim {
@@ -286,13 +298,23 @@ pub mod atomic {
                 pub fn compare_exchange(&self, c: $prim, n: $prim, s: Ordering, f: Ordering) -> Result<$prim, $prim> {
                     self.reg();
                     sched::point(concat!(stringify!($name), ".compare_exchange"));
-                    self.inner.compare_exchange(c, n, s, f)
+                    let r = self.inner.compare_exchange(c, n, s, f);
+                    match r {
+                        Ok(_) => sched::note_write(&self.inner as *const $std as usize),
+                        Err(cur) => sched::note_read(&self.inner as *const $std as usize, cur as u64),
+                    }
+                    r
                 }
                 pub fn compare_exchange_weak(&self, c: $prim, n: $prim, s: Ordering, f: Ordering) -> Result<$prim, $prim> {
                     self.reg();
                     sched::point(concat!(stringify!($name), ".compare_exchange_weak"));
                     // no spurious failure under the scheduler: a retry loop would otherwise be unbounded
-                    self.inner.compare_exchange(c, n, s, f)
+                    let r = self.inner.compare_exchange(c, n, s, f);
+                    match r {
+                        Ok(_) => sched::note_write(&self.inner as *const $std as usize),
+                        Err(cur) => sched::note_read(&self.inner as *const $std as usize, cur as u64),
+                    }
+                    r
                 }
                 pub fn fetch_update<F: FnMut($prim) -> Option<$prim>>(&self, s: Ordering, f: Ordering, mut g: F) -> Result<$prim, $prim> {
                     self.reg();
@@ -343,6 +365,7 @@ pub mod atomic {
             pub fn $m(&self, v: bool, o: Ordering) -> bool {
                 self.reg();
                 sched::point(concat!("AtomicBool.", stringify!($m)));
+                sched::note_write(&self.inner as *const std::sync::atomic::AtomicBool as usize);
                 self.inner.$m(v, o)
             }
         };
@@ -360,11 +383,14 @@ pub mod atomic {
         pub fn load(&self, o: Ordering) -> bool {
             self.reg();
             sched::point("AtomicBool.load");
-            self.inner.load(o)
+            let v = self.inner.load(o);
+            sched::note_read(&self.inner as *const std::sync::atomic::AtomicBool as usize, v as u64);
+            v
         }
         pub fn store(&self, v: bool, o: Ordering) {
             self.reg();
             sched::point("AtomicBool.store");
+            sched::note_write(&self.inner as *const std::sync::atomic::AtomicBool as usize);
             self.inner.store(v, o)
         }
         bool_rmw!(swap);
@@ -375,12 +401,22 @@ pub mod atomic {
         pub fn compare_exchange(&self, c: bool, n: bool, s: Ordering, f: Ordering) -> Result<bool, bool> {
             self.reg();
             sched::point("AtomicBool.compare_exchange");
-            self.inner.compare_exchange(c, n, s, f)
+            let r = self.inner.compare_exchange(c, n, s, f);
+            match r {
+                Ok(_) => sched::note_write(&self.inner as *const std::sync::atomic::AtomicBool as usize),
+                Err(cur) => sched::note_read(&self.inner as *const std::sync::atomic::AtomicBool as usize, cur as u64),
+            }
+            r
         }
         pub fn compare_exchange_weak(&self, c: bool, n: bool, s: Ordering, f: Ordering) -> Result<bool, bool> {
             self.reg();
             sched::point("AtomicBool.compare_exchange_weak");
-            self.inner.compare_exchange(c, n, s, f)
+            let r = self.inner.compare_exchange(c, n, s, f);
+            match r {
+                Ok(_) => sched::note_write(&self.inner as *const std::sync::atomic::AtomicBool as usize),
+                Err(cur) => sched::note_read(&self.inner as *const std::sync::atomic::AtomicBool as usize, cur as u64),
+            }
+            r
         }
         pub fn fetch_update<F: FnMut(bool) -> Option<bool>>(&self, s: Ordering, f: Ordering, mut g: F) -> Result<bool, bool> {
             let mut cur = self.load(f);
